@@ -159,46 +159,58 @@ Definition master_get (M : list shape) (t : N) : option shape :=
 Definition layout_get (L : list shape) (i : N) : option shape :=
   find (fun s => match s_ph s with Some p => N.eqb (ph_idx p) i | None => false end) L.
 
-(** LayoutPlaceholder.left/top/width/height: the dict lookup comes before the master lookup *)
+(** LayoutPlaceholder._inherited_value: _base_placeholder does the dict lookup (KeyError for a
+    type without entry) before the master is consulted; the master placeholder is a plain
+    MasterPlaceholder and reports its own value *)
+Definition layout_inh (c : cfg) (a : attr) (M : list shape) (lp : shape) : res (option Z) :=
+  match s_ph lp with
+  | None => Ok None
+  | Some p =>
+      bind (dict_get (ph_type p) (c_lmmap c)) (fun bt =>
+        match master_get M bt with
+        | None => Ok None
+        | Some mp => Ok (own a mp)
+        end)
+  end.
+
+(** LayoutPlaceholder.left/top/width/height (_effective_value): own value, else inherited *)
 Definition layout_eff (c : cfg) (a : attr) (M : list shape) (lp : shape) : res (option Z) :=
   match own a lp with
   | Some v => Ok (Some v)
-  | None =>
-      match s_ph lp with
+  | None => layout_inh c a M lp
+  end.
+
+(** _BaseSlidePlaceholder._inherited_value on a slide whose layout tree is [L] with master [M]:
+    the EFFECTIVE value of the first layout placeholder with the same idx *)
+Definition slide_inh (c : cfg) (a : attr) (M L : list shape) (sp : shape) : res (option Z) :=
+  match s_ph sp with
+  | None => Ok None
+  | Some p =>
+      match layout_get L (ph_idx p) with
       | None => Ok None
-      | Some p =>
-          bind (dict_get (ph_type p) (c_lmmap c)) (fun bt =>
-            match master_get M bt with
-            | None => Ok None
-            | Some mp => Ok (own a mp)
-            end)
+      | Some lp => layout_eff c a M lp
       end
   end.
 
-(** _BaseSlidePlaceholder.left/... on a slide whose layout tree is [L] with master [M] *)
+(** _BaseSlidePlaceholder.left/... *)
 Definition slide_eff (c : cfg) (a : attr) (M L : list shape) (sp : shape) : res (option Z) :=
   match own a sp with
   | Some v => Ok (Some v)
-  | None =>
-      match s_ph sp with
-      | None => Ok None
-      | Some p =>
-          match layout_get L (ph_idx p) with
-          | None => Ok None
-          | Some lp => layout_eff c a M lp
-          end
-      end
+  | None => slide_inh c a M L sp
   end.
 
-(** NotesSlidePlaceholder.left/...: first notes-master placeholder of the same type, own value *)
+(** NotesSlidePlaceholder._inherited_value: first notes-master placeholder of the same type, own value *)
+Definition notes_inh (a : attr) (NM : list shape) (sp : shape) : option Z :=
+  match s_ph sp with
+  | None => None
+  | Some p => match master_get NM (ph_type p) with None => None | Some mp => own a mp end
+  end.
+
+(** NotesSlidePlaceholder.left/... *)
 Definition notes_eff (a : attr) (NM : list shape) (sp : shape) : option Z :=
   match own a sp with
   | Some v => Some v
-  | None =>
-      match s_ph sp with
-      | None => None
-      | Some p => match master_get NM (ph_type p) with None => None | Some mp => own a mp end
-      end
+  | None => notes_inh a NM sp
   end.
 
 (** ST_Coordinate / ST_PositiveCoordinate validation *)
@@ -228,6 +240,64 @@ Definition set_attr (a : attr) (v : Z) (s : shape) : shape * res unit :=
                 | _ => s_ext s end in
     (mk_shape (s_id s) (s_name s) (s_ph s) off1 ext1 (s_txbody s), Ok tt)
   else (s, Err ValueErr).
+
+Definition attr_eqb (a b : attr) : bool :=
+  match a, b with
+  | ALeft, ALeft | ATop, ATop | AWidth, AWidth | AHeight, AHeight => true
+  | _, _ => false
+  end.
+
+(** iteration order of the dict literal in _set_dimension *)
+Definition dim_order : list attr := [ALeft; ATop; AWidth; AHeight].
+
+(** the list comprehension of _InheritsDimensions._set_dimension: for every OTHER dimension,
+    in dict order, whose directly applied value is None, the inherited value is looked up; the
+    first lookup that raises aborts the whole assignment (nothing has been written yet) *)
+Fixpoint collect_inh (inh : attr -> res (option Z)) (a : attr) (s : shape) (bs : list attr)
+  : res (list (attr * option Z)) :=
+  match bs with
+  | [] => Ok []
+  | b :: bs' =>
+      if negb (attr_eqb b a) && (match own b s with None => true | Some _ => false end) then
+        bind (inh b) (fun w => bind (collect_inh inh a s bs') (fun r => Ok ((b, w) :: r)))
+      else collect_inh inh a s bs'
+  end.
+
+(** the final for-loop of _set_dimension: every inherited value that is not None is written
+    through the element-level setter (which validates); the first refused one raises and leaves
+    the earlier assignments in place *)
+Fixpoint apply_inh (l : list (attr * option Z)) (s : shape) : shape * res unit :=
+  match l with
+  | [] => (s, Ok tt)
+  | (_, None) :: l' => apply_inh l' s
+  | (b, Some w) :: l' =>
+      let '(s1, r) := set_attr b w s in
+      match r with
+      | Ok _ => apply_inh l' s1
+      | Err e => (s1, Err e)
+      end
+  end.
+
+(** placeholder.left = v etc. on a proxy with _InheritsDimensions (slide, layout and notes-slide
+    placeholders), [inh] being its _inherited_value: lookups first, then the assigned dimension
+    (validated: a refused value raises ValueError with nothing changed), then the inherited values
+    of the dimensions the new a:off / a:ext would otherwise displace *)
+Definition set_dim (inh : attr -> res (option Z)) (a : attr) (v : Z) (s : shape) : shape * res unit :=
+  match collect_inh inh a s dim_order with
+  | Err e => (s, Err e)
+  | Ok l =>
+      let '(s1, r) := set_attr a v s in
+      match r with
+      | Ok _ => apply_inh l s1
+      | Err e => (s1, Err e)
+      end
+  end.
+
+(** which setter a shape of a tree gets: the shape factories of slides, layouts and notes slides
+    return an _InheritsDimensions proxy for a p:sp with p:ph and a plain Shape otherwise *)
+Definition shape_setter (inh : shape -> attr -> res (option Z)) (a : attr) (v : Z) (s : shape)
+  : shape * res unit :=
+  if is_ph s then set_dim (inh s) a v s else set_attr a v s.
 
 Definition clear_xfrm (s : shape) : shape :=
   mk_shape (s_id s) (s_name s) (s_ph s) None None (s_txbody s).
@@ -339,13 +409,14 @@ Inductive op :=
 | AddTextbox (s : nat) (x y cx cy : Z)
 | ClonePh (s l i : nat).      (* slide.shapes.clone_placeholder(layout.placeholders[i]) on an existing slide *)
 
-(** apply an edit to the i-th shape of a tree *)
-Definition edit_tree (t : list shape) (i : nat) (e : edit) : list shape * res unit :=
+(** apply an edit to the i-th shape of a tree; [st] is the geometry setter of its proxy class *)
+Definition edit_tree (st : attr -> Z -> shape -> shape * res unit)
+                     (t : list shape) (i : nat) (e : edit) : list shape * res unit :=
   match nth_error t i with
   | None => (t, Err IndexErr)
   | Some s =>
       match e with
-      | ESet a v => let '(s', r) := set_attr a v s in (upd_nth i (fun _ => s') t, r)
+      | ESet a v => let '(s', r) := st a v s in (upd_nth i (fun _ => s') t, r)
       | EClear => (upd_nth i clear_xfrm t, Ok tt)
       | ERename n => (upd_nth i (rename n) t, Ok tt)
       | EDelete => (remove_nth i t, Ok tt)
@@ -358,6 +429,28 @@ Definition s_textbox : str := [84; 101; 120; 116; 66; 111; 120; 32]%N.  (* TextB
 Definition add_textbox (t : list shape) (x y cx cy : Z) : list shape :=
   let id := (max_id KSlide t + 1)%N in
   t ++ [mk_shape id (s_textbox ++ dec_of_N (id - 1)%N) None (Some (x, y)) (Some (cx, cy)) true].
+
+(** layout tree and master tree a slide related to layout [l] of deck [d] inherits through *)
+Definition layout_tree (d : deck) (l : nat) : list shape :=
+  match nth_error (d_layouts d) l with Some L => l_shapes L | None => [] end.
+Definition master_tree (d : deck) (l : nat) : list shape :=
+  match nth_error (d_layouts d) l with
+  | Some L => nth (l_master L) (d_masters d) []
+  | None => []
+  end.
+
+(** the geometry setters per tree kind.  list(slide.shapes)[i] is a _BaseSlidePlaceholder subclass
+    for a p:sp with p:ph (inherits from the layout placeholder with its idx, effective value),
+    list(notes_slide.shapes)[i] a NotesSlidePlaceholder (notes master, by type, own value),
+    layout.placeholders[i] a LayoutPlaceholder (master of that layout, by mapped type, own value);
+    slide_master.placeholders[i] and notes_master.placeholders[i] are MasterPlaceholder objects
+    and every shape without p:ph is a plain Shape: those assign the element attribute directly *)
+Definition slide_setter (c : cfg) (d : deck) (sl : slide) : attr -> Z -> shape -> shape * res unit :=
+  shape_setter (fun sh b => slide_inh c b (master_tree d (sl_layout sl)) (layout_tree d (sl_layout sl)) sh).
+Definition notes_setter (d : deck) : attr -> Z -> shape -> shape * res unit :=
+  shape_setter (fun sh b => Ok (notes_inh b (the_notes_master d) sh)).
+Definition layout_setter (c : cfg) (d : deck) (L : layout) : attr -> Z -> shape -> shape * res unit :=
+  shape_setter (fun sh b => layout_inh c b (nth (l_master L) (d_masters d) []) sh).
 
 Definition step (c : cfg) (d : deck) (o : op) : deck * res unit :=
   match o with
@@ -391,7 +484,7 @@ Definition step (c : cfg) (d : deck) (o : op) : deck * res unit :=
       match nth_error (d_slides d) s with
       | None => (d, Err IndexErr)
       | Some sl =>
-          let '(t, r) := edit_tree (sl_shapes sl) i e in
+          let '(t, r) := edit_tree (slide_setter c d sl) (sl_shapes sl) i e in
           (set_slides d (upd_nth s (fun sl => mk_slide (sl_layout sl) t (sl_notes sl)) (d_slides d)), r)
       end
   | Edit (TNotes s i) e =>
@@ -401,7 +494,7 @@ Definition step (c : cfg) (d : deck) (o : op) : deck * res unit :=
           match sl_notes sl with
           | None => (d, Err IndexErr)    (* the harness only targets existing notes slides *)
           | Some nt =>
-              let '(t, r) := edit_tree nt i e in
+              let '(t, r) := edit_tree (notes_setter d) nt i e in
               (set_slides d (upd_nth s (fun sl => mk_slide (sl_layout sl) (sl_shapes sl) (Some t)) (d_slides d)), r)
           end
       end
@@ -409,19 +502,19 @@ Definition step (c : cfg) (d : deck) (o : op) : deck * res unit :=
       match nth_error (d_layouts d) l with
       | None => (d, Err IndexErr)
       | Some L =>
-          let '(t, r) := edit_tree (l_shapes L) i e in
+          let '(t, r) := edit_tree (layout_setter c d L) (l_shapes L) i e in
           (set_layouts d (upd_nth l (fun L => mk_layout (l_master L) t) (d_layouts d)), r)
       end
   | Edit (TMaster m i) e =>
       match nth_error (d_masters d) m with
       | None => (d, Err IndexErr)
       | Some M =>
-          let '(t, r) := edit_tree M i e in
+          let '(t, r) := edit_tree set_attr M i e in
           (set_masters d (upd_nth m (fun _ => t) (d_masters d)), r)
       end
   | Edit (TNotesMaster i) e =>
       let d1 := ensure_notes_master d in
-      let '(t, r) := edit_tree (the_notes_master d) i e in
+      let '(t, r) := edit_tree set_attr (the_notes_master d) i e in
       (set_notes_master d1 (Some t), r)
   end.
 
@@ -438,13 +531,6 @@ Fixpoint run_ops (c : cfg) (d : deck) (ops : list op) : deck * list (res unit) :
 Definition final (c : cfg) (d : deck) (ops : list op) : deck := fst (run_ops c d ops).
 
 (** geometry of the shapes of slide [sl] in deck [d] (through its layout and that layout's master) *)
-Definition layout_tree (d : deck) (l : nat) : list shape :=
-  match nth_error (d_layouts d) l with Some L => l_shapes L | None => [] end.
-Definition master_tree (d : deck) (l : nat) : list shape :=
-  match nth_error (d_layouts d) l with
-  | Some L => nth (l_master L) (d_masters d) []
-  | None => []
-  end.
 Definition slide_geom (c : cfg) (d : deck) (sl : slide) (a : attr) (sp : shape) : res (option Z) :=
   slide_eff c a (master_tree d (sl_layout sl)) (layout_tree d (sl_layout sl)) sp.
 
